@@ -306,10 +306,22 @@ func (r *caseRun) opGetFail() {
 		return
 	}
 	after := r.n.pos()
-	if after.ack > before.ack && before.ack+1 != e.Seq {
-		r.c.Branch("getfail-ack-jumped")
+	if after.hasSeq != before.hasSeq || after.seq != before.seq {
+		r.c.Branch("getfail-family-sequence-moved")
+	}
+	if after.ack > before.ack {
+		r.c.Branch("getfail-acknowledged")
 	}
 	r.c.Op(r.lop("getfail"), r.P())
+	// the consumer group's meta page and the manifest are durable as they are: this instant is a crash
+	// point. The acknowledged position must not cover an entry with rows above the stored sequence.
+	for _, x := range r.entries {
+		if x.ldr() == r.cur && !x.Bad && x.Seq <= after.ack && (!after.hasStored || x.Seq > after.stored) {
+			r.c.Fail(keyAckGtStored, fmt.Sprintf("after GetMessage failed for entry %d (partition.replica -> IgnoreMessage): leader %d's consumer group ack %d covers entry %d, but the sequence stored with the data is %s",
+				e.Seq, r.cur, after.ack, x.Seq, optStr(after.stored, after.hasStored)))
+			break
+		}
+	}
 	r.c.Branch("getmessage-fails-ignore-only")
 }
 
